@@ -178,6 +178,7 @@ def generate_cold(seed, spec, rng, nops, weights, seed_ops=("blocks",), on_op=No
     """Generate the program of one task alone, cache seam off, fresh world.
     Returns (program, {uid: [digests of outputs]}, task)."""
     w = core.World(seed, cache_impl="off", lapack=False)
+    w.generating = True      # oracles living inside ops stay silent during the generation pass
     try:
         task = e1.task_from_spec(spec)
         digs = {}
